@@ -37,7 +37,7 @@ WORKERS = {"quick": 1, "thorough": 14}
 
 def gen_cases(ctx):
     rng = ctx.rng
-    for i in range(ctx.scale(10000, 250000)):
+    for i in range(ctx.scale(10000, 1500000)):
         filt = i % 2 == 1
         c = gen_history_case(
             rng, classes=gen.POSITIVE_CLASSES if filt else gen.INSTANCE_CLASSES,
@@ -49,7 +49,7 @@ def gen_cases(ctx):
         c["episodes"] = rng.choice([1, 1, 2, 3])
         c["observers"] = rng.random() < 0.25   # every built-in observer + residual updater attached
         yield c
-    for i in range(ctx.scale(150, 4000)):
+    for i in range(ctx.scale(150, 24000)):
         inst = gen.gen_instance(rng, rng.choice(gen.POSITIVE_CLASSES), max_jobs=3,
                                 max_machines=3, max_ops=rng.randint(5, 7 if ctx.tier == "quick" else 8))
         fs = gen.gen_filter_spec(rng)
